@@ -676,13 +676,13 @@ fn main() {
     for c in exhaustive_cases() {
         check_case(&c, "exhaustive_2x1", &mut model, &mut report);
     }
-    let n_random = if args.thorough() { 6000 } else { 500 };
+    let n_random = if args.thorough() { 60_000 } else { 4000 };
     for _ in 0..n_random {
         let mut r = rng.fork();
         let c = gen_case(&mut r, &mut report);
         check_case(&c, "random", &mut model, &mut report);
     }
-    let n_router = if args.thorough() { 5000 } else { 500 };
+    let n_router = if args.thorough() { 20_000 } else { 2000 };
     for _ in 0..n_router {
         let mut r = rng.fork();
         let ops = gen_router(&mut r);
